@@ -21,6 +21,18 @@ def flap_case(ids, valid, flap):
                 ops, True, "exhaustive")
 
 
+def swap_case(ids, valid, flap, drop):
+    """one node comes back while another one expires in the same status tick: the number of live nodes stays"""
+    f, d = ",".join(map(str, flap)), ",".join(map(str, drop))
+    ops = ["node ids=%s valid=%s flap=%s drop=%s local=%d" % (",".join(map(str, ids)), ",".join(map(str, valid)), f, d, n)
+           for n in valid]
+    ops += ["node ids=%s valid=%s drop=%s local=%d" % (",".join(map(str, ids)), ",".join(map(str, sorted(set(valid) | set(flap)))), d, x)
+            for x in flap]
+    ops.append("verdict")
+    return Case("swap-%s-up-%s-back-%s-gone-%s" % ("_".join(map(str, ids)), "_".join(map(str, valid)), f.replace(",", "_"),
+                                                  d.replace(",", "_")), ops, True, "exhaustive")
+
+
 def gen_distro(rng, tier):
     cases = []
     idsets = [list(range(1, n + 1)) for n in range(1, 6)]
@@ -37,6 +49,15 @@ def gen_distro(rng, tier):
                 rest = [i for i in ids if i not in valid]
                 for f in rest:
                     cases.append(flap_case(ids, list(valid), [f]))
+    # a node reports in again while another one runs into its time-out (same tick: live count unchanged, live set changed)
+    for ids in ([1, 2, 3], [1, 2, 3, 4]) if tier == "quick" else idsets[2:]:
+        for k in range(1, len(ids) - 1):
+            for valid in itertools.combinations(ids, k):
+                rest = [i for i in ids if i not in valid]
+                for f in rest:
+                    for d in rest:
+                        if f != d:
+                            cases.append(swap_case(ids, list(valid), [f], [d]))
     return cases
 
 
@@ -48,7 +69,7 @@ class C14(Prop):
     models = [ModelRun("distro", gen_distro, lambda c: len(c.ops) >= 2, spec_needs_impl=True, shrinkable=False, rule=(
         "exhaustive: every cluster size 1..5 x every non-empty subset of live nodes x every live node as the local "
         "node (one real InnerNodeManage actor each; the nodes that are down are starved of pings past the genuine "
-        "15 s timeout; plus views in which a starved node reports in again and must be counted as live after the next status tick), hash residues 0..59 (lcm(1..5)) through real keys hashed by the implementation; "
+        "15 s timeout; plus views in which a starved node reports in again and must be counted as live after the next status tick, and views in which one node reports in again within the very status period in which another one expires - same number of live nodes, another live set), hash residues 0..59 (lcm(1..5)) through real keys hashed by the implementation; "
         "non-trivial = at least one node op + verdict; distinct = sha1 of the op list"))]
     trusted_base = [
         "model of get_current_process_range / is_range / route_addr is hand-written (RNacos/Model/Distro.lean)",
